@@ -11,7 +11,7 @@
         in the statement, by in-kernel evaluation of the model of reduce. *)
 From LC Require Import Spec.Encodings Spec.Confluence Spec.NorEval Model.Reduction Gen.Terms
   Proofs.Sound Proofs.ReduceProps Proofs.Normalise Proofs.Convert
-  Proofs.ScottArith Proofs.ParigotArith Proofs.StumpFuArith Proofs.BinaryArith Proofs.Returns.
+  Proofs.ScottArith Proofs.ParigotArith Proofs.StumpFuArith Proofs.BinaryArith Proofs.Returns Proofs.EagerTyped.
 
 Theorem C14_scott : forall m n,
   red (App lc_num_scott_succ (scott n)) (scott (S n)) /\
@@ -167,6 +167,22 @@ Proof.
     first [apply scott_nf | apply parigot_nf | apply stumpfu_nf | apply binary_nf | apply church_nf | apply bool_nf].
 Qed.
 
+(** the EAGER orders too, for ALL n, for the operations whose application to a numeral is simply typable (binary
+    numerals have one type; Scott and Stump-Fu numerals have length-indexed types): strongly normalising, hence
+    normalised by every strategy.  [full o] is o = NOR \/ o = HNO \/ o = APP \/ o = HAP.  (The Z-based Scott operations
+    are documented as unsuitable for APP/HAP; for the remaining operations see the grids of C14G.v.) *)
+Theorem C14_eager_returns : forall o n, full o ->
+  returns o (App lc_num_binary_shl1 (binary n)) (binary (2 * n + 1)) /\
+  (0 < n -> returns o (App lc_num_binary_shl0 (binary n)) (binary (2 * n))) /\
+  returns o (App lc_num_binary_lsb (binary n)) (bool_t (Nat.even n)) /\
+  returns o (App lc_num_binary_is_zero (binary n)) (bool_t (n =? 0)) /\
+  returns o (App lc_num_scott_succ (scott n)) (scott (S n)) /\
+  returns o (App lc_num_scott_pred (scott n)) (scott (pred n)) /\
+  returns o (App lc_num_scott_is_zero (scott n)) (bool_t (n =? 0)) /\
+  returns o (App lc_num_stumpfu_pred (stumpfu n)) (stumpfu (pred n)) /\
+  returns o (App lc_num_stumpfu_is_zero (stumpfu n)) (bool_t (n =? 0)).
+Proof. intros o n F. apply othernum_typed_returns; auto. Qed.
+
 Print Assumptions C14_scott.
 Print Assumptions C14_parigot.
 Print Assumptions C14_stumpfu.
@@ -180,3 +196,4 @@ Print Assumptions C14_any_order_sound.
 Print Assumptions C14_hno_scott_pow.
 Print Assumptions C14_nor_binary_succ.
 Print Assumptions C14_reduce_returns.
+Print Assumptions C14_eager_returns.
